@@ -216,8 +216,11 @@ func PopulateStructFields(m map[string]any, data any) {
 			fieldValue = StructToMap(fieldValue)
 		}
 
-		// Add the field itself (for path resolution like item.inStock)
-		m[tagName] = fieldValue
+		// Add the field itself (for path resolution like item.inStock),
+		// unless a scope already binds the name: scopes shadow root data.
+		if _, bound := m[tagName]; !bound {
+			m[tagName] = fieldValue
+		}
 	}
 }
 
